@@ -370,6 +370,12 @@ func helperCasesC05(c *Ctx) {
 				l[2] = a
 			}
 		}
+		if k >= 2 && i%3 == 1 {
+			// a version 1 blob whose data ends 0..19 bytes before the end of its last share (its declared
+			// sequence length alone would need one share less than it occupies) in front of other blobs
+			l[0].ver, l[0].signer = 1, randSigner(r)
+			l[0].data = r.Bytes(458 + 482*r.Intn(3) - r.Intn(20) + 20)
+		}
 		thr := pick(r, []int{1, 2, 3, 4, 64})
 		if r.Intn(9) == 0 {
 			thr = 0 // integer division by zero inside SubTreeWidth (unless there is no blob)
